@@ -191,11 +191,18 @@ func vYield() {
 // vQuiesce waits until the other goroutines have stopped making progress.
 func vQuiesce() {
 	ctl.HPoint("quiesce")
-	// let uncontrolled (library) goroutines settle
-	for i := 0; i < 20; i++ {
+	// let uncontrolled (library) goroutines settle: at least 10 ms, and — on a loaded machine — until the
+	// number of goroutines has stayed the same for 5 ms, at most 150 ms
+	stable, last := 0, runtime.NumGoroutine()
+	for i := 0; i < 300 && (i < 20 || stable < 10); i++ {
 		vtime.Touch() // settling is not idleness: the clock stands still meanwhile
 		runtime.Gosched()
 		time.Sleep(500 * time.Microsecond)
+		if g := runtime.NumGoroutine(); g == last {
+			stable++
+		} else {
+			stable, last = 0, g
+		}
 	}
 	vtime.Touch()
 }
